@@ -36,13 +36,19 @@
                         plus a re-parenting loop: the list assignment destroys the old
                         children first - and with them a source that is a descendant of the
                         destination, together with the children that were to be adopted
+     LeakTempBug        the temporary object(value) of insert(it, T) is never destroyed (guard
+                        of the model-sanity invariant NoLeak)
+     LogDupBug          find_or_create_child never finds the existing child (always push_back)
+     LogSetShallowBug   context::set updates the node only, not the locations below it
+   BadIInit (cfg INIT override) starts from an ill-typed state: guard of ITypeOK / TypeOK.
    ReleaseNoClear = TRUE drops `ret.parent_ = nullptr` from release()/pop_*():
    TLC finds NO violation - the statement is redundant because the move
    constructor already leaves parent_ null (an equivalent mutant, see notes). *)
 EXTENDS Tree
 
 CONSTANTS SwapBug, CopyAssignBug, MoveAssignBug, InsertNoParentBug, CopyNoReparentBug,
-          EraseKeepsBug, PushFrontRetBug, ReleaseNoClear, MoveAssignInPlaceBug
+          EraseKeepsBug, PushFrontRetBug, ReleaseNoClear, MoveAssignInPlaceBug, LeakTempBug,
+          LogDupBug, LogSetShallowBug
 
 VARIABLES heap,    \* sequence of [v, par, kids, live]; index = address
           roots,   \* [1..NS -> id or 0]
@@ -97,7 +103,7 @@ InsertMove(h, this, pos, src) ==
 InsertValue(h, this, pos, x) ==
   LET t == NewNode(h, x)
       r == InsertMove(t.h, this, pos, t.id)
-  IN [h |-> Kill(r.h, t.id), id |-> r.id]
+  IN [h |-> IF LeakTempBug THEN r.h ELSE Kill(r.h, t.id), id |-> r.id]
 
 (* release(it): object ret(std::move(child)); children_.erase(it); ret.parent_ = nullptr; return ret;
    pop_back()/pop_front(): the same through container::pop_back / pop_front and optional::map *)
@@ -148,6 +154,17 @@ SortKids(h, this, desc) ==
   LET recs == [i \in 1..Len(h[this].kids) |-> [v |-> h[h[this].kids[i]].v, id |-> h[this].kids[i]]]
       srt == StableSort(recs, desc)
   IN [h EXCEPT ![this].kids = [i \in 1..Len(srt) |-> srt[i].id]]
+
+(* the log context: find_location_impl folds find_or_create_child along the location;
+   find_or_create_child = find_child (first child with the name) or push_back(node{name, level()}) *)
+RECURSIVE ILogFind(_, _, _)
+ILogFind(h, n, names) ==
+  IF names = <<>> THEN [h |-> h, id |-> n]
+  ELSE LET S == {i \in 1..Len(h[n].kids) : LogName(h[h[n].kids[i]].v) = Head(names)}
+       IN IF S # {} /\ ~LogDupBug
+          THEN ILogFind(h, h[n].kids[CHOOSE i \in S : \A j \in S : i <= j], Tail(names))
+          ELSE LET r == InsertValue(h, n, Len(h[n].kids), LogLabel(Head(names), LogLevel(h[n].v)))
+               IN ILogFind(r.h, r.id, Tail(names))
 
 -----------------------------------------------------------------------------
 (* reading the structure through the child lists *)
@@ -219,6 +236,15 @@ ImplEff(h, rt, a) ==
        [] a.op = "set_value" -> S([h EXCEPT ![na].v = a.x])
        [] a.op = "eq" -> R(h, rt, 0, FALSE, Equal(AbsTree(h, na), AbsTree(h, nb)))
        [] a.op = "ne" -> R(h, rt, 0, FALSE, ~Equal(AbsTree(h, na), AbsTree(h, nb)))
+       [] a.op = "log_ctor" -> LET n == NewNode(h, LogLabel(0, a.x)) IN R(n.h, [rt EXCEPT ![a.d] = n.id], 0, FALSE, FALSE)
+       [] a.op = "log_create" -> LET r == ILogFind(h, na, a.ss) IN R(r.h, rt, r.id, FALSE, FALSE)
+       [] a.op = "log_set" ->
+            \* for (node : make_pre_order(find_location_impl(location))) node.value().level(level)
+            LET r == ILogFind(h, na, a.ss)
+                ids == IF LogSetShallowBug THEN <<r.id>> ELSE DfsIds(r.h, r.id)
+            IN S([i \in 1..Len(r.h) |->
+                    IF \E j \in 1..Len(ids) : ids[j] = i
+                    THEN [r.h[i] EXCEPT !.v = LogLabel(LogName(@), a.x)] ELSE r.h[i]])
 
 -----------------------------------------------------------------------------
 IInit ==
@@ -284,6 +310,21 @@ ReturnsAgree == retok
 ITypeOK ==
   /\ \A i \in 1..Len(heap) : heap[i].par \in 0..Len(heap) /\ \A j \in 1..Len(heap[i].kids) : heap[i].kids[j] \in 1..Len(heap)
   /\ \A s \in 1..NS : roots[s] \in 0..Len(heap)
+
+(* ill-typed initial states: vacuity guards of ITypeOK and TypeOK (MC_TreeImpl_badinit*.cfg) *)
+BadIInit ==
+  /\ st = EmptyForest /\ hist = <<>> /\ retok = TRUE /\ roots = [s \in 1..NS |-> 0]
+  /\ heap = <<[v |-> 0, par |-> 7, kids |-> <<>>, live |-> FALSE]>>
+BadTInit ==
+  /\ st = [s \in 1..NS |-> IF s = 1 THEN Live(Leaf(CHOOSE x \in 0..100 : x \notin Val)) ELSE Dead]
+  /\ hist = <<>> /\ heap = <<>> /\ retok = TRUE /\ roots = [s \in 1..NS |-> 0]
+
+(* the log sub-model in lock-step (MC_TreeImpl_log.cfg) *)
+LogIInit == IInit
+LogINext == \E a \in LogOpsOf(st) : IStep(a)
+LogNamesUniqueI ==
+  \A n \in Reach : \A i \in 1..Len(heap[n].kids) : \A j \in 1..Len(heap[n].kids) :
+    i # j => LogName(heap[heap[n].kids[i]].v) # LogName(heap[heap[n].kids[j]].v)
 
 EmitIScripts == PrintT("SCRIPT " \o ToJson(hist))
 =============================================================================
